@@ -76,8 +76,11 @@ def tree_hash():
 def _prune(prefix, keep):
     """keep only the newest `keep` build dirs with this prefix"""
     ds = sorted(glob.glob(os.path.join(BUILD, prefix + "-*")), key=os.path.getmtime)
+    now = time.time()
     for d in ds[:-keep]:
-        shutil.rmtree(d, ignore_errors=True)
+        # never remove a build another concurrent check may be about to link against
+        if now - os.path.getmtime(d) > 1800:
+            shutil.rmtree(d, ignore_errors=True)
 
 
 def build_lib(kind="asan"):
